@@ -485,6 +485,12 @@ def run(repo: Repo, rep: Report, tier: str) -> None:
     _borrow10b(repo, rep, "C07", "C07-R3", "C10-R13", "the optimised build keeps every wire it plans: spanning-tree routing lays input->input wires between sinks, which are different "
                "wires from the output->input wire between the same two combinators", select=lambda o: "add_wire_connection" in o.construct, floor=1)
 
+    # ---------------- R16/R17 ----------------------------------------------------------
+    _borrow10b(repo, rep, "C11", "C11-R5", "C10-R16", "a comparison whose operands constant propagation made constant is decided with the program's own comparator: the plain build "
+               "leaves that comparison to the game, so any other table changes behaviour only under optimisation", floor=1)
+    _borrow10b(repo, rep, "C11", "C11-R2", "C10-R17", "what the constant-propagation pass folds is what the combinator it removes would have computed (32-bit wrap, truncating division, "
+               "remainder with the dividend's sign): the plain build leaves the operation to the game", select=lambda o: o.construct.startswith("ConstantPropagationOptimizer."), floor=8)
+
     # ---------------- R14 --------------------------------------------------------------
     rep.rule("C10-R14", "constant propagation folds scalar constants only: a node enters the pass's constant table (the table `.value` is read from) only if it is an IRConst without "
              "member signals — a bundle constant has value 0 and several signals, folding `{...} * 2` through it yields the single constant 0")
